@@ -20,6 +20,7 @@ import (
 	"errors"
 	"fmt"
 	"os"
+	"strings"
 )
 
 import (
@@ -139,11 +140,20 @@ func HostRuleConfLoad(filename string) (HostConf, error) {
 	// convert HostTagToHost to Host2HostTag
 	host2HostTag := make(Host2HostTag)
 
+	// hosts are matched in lower case and without the trailing dot (see buildHostRoute()),
+	// so two spellings of one host under different host-tags are ambiguous
+	canonicalHost2HostTag := make(Host2HostTag)
+
 	for hostTag, hostnameList := range *config.Hosts {
 		for _, hostName := range *hostnameList {
-			if host2HostTag[hostName] != "" {
+			if _, ok := host2HostTag[hostName]; ok {
 				return conf, fmt.Errorf("host duplicate for %s", hostName)
 			}
+			canonicalHost := strings.TrimSuffix(strings.ToLower(hostName), ".")
+			if tag, ok := canonicalHost2HostTag[canonicalHost]; ok && tag != hostTag {
+				return conf, fmt.Errorf("host duplicate for %s (host-tag %s and %s)", hostName, tag, hostTag)
+			}
+			canonicalHost2HostTag[canonicalHost] = hostTag
 			host2HostTag[hostName] = hostTag
 		}
 	}
@@ -153,6 +163,9 @@ func HostRuleConfLoad(filename string) (HostConf, error) {
 
 	for product, hostTagList := range *config.HostTags {
 		for _, hostTag := range *hostTagList {
+			if p, ok := hostTag2Product[hostTag]; ok && p != product {
+				return conf, fmt.Errorf("host-tag %s belongs to both product %s and %s", hostTag, p, product)
+			}
 			hostTag2Product[hostTag] = product
 		}
 	}
